@@ -120,7 +120,7 @@ func (o *ObjectSchema) Unserialize(data any) (result any, err error) {
 	v := reflect.ValueOf(data)
 	var rawData map[string]any
 	if v.Kind() != reflect.Map {
-		if len(o.Properties()) == 1 && !o.inlineShorthandCycles() {
+		if o.takesShorthand() {
 			rawData, err = o.unserializeInlinedDataToMap(data)
 		} else {
 			return nil, &ConstraintError{
@@ -141,6 +141,11 @@ func (o *ObjectSchema) Unserialize(data any) (result any, err error) {
 		return o.unserializeToStruct(rawData)
 	}
 	return rawData, nil
+}
+
+// takesShorthand reports whether a value that is not a map is taken as the value of the only property of this object.
+func (o *ObjectSchema) takesShorthand() bool {
+	return len(o.Properties()) == 1 && !o.inlineShorthandCycles()
 }
 
 // inlineShorthandCycles reports whether the single-property shorthand would never arrive anywhere: the only property is
@@ -631,9 +636,24 @@ type selectsMember interface {
 	memberOf(fields map[string]any) (Object, bool)
 }
 
-// defaultAppliesItself tells whether unserializing the default value of the property comes to a place where that same
-// default value applies: an object below it (a reference back to this object, say) that leaves the property unset
-// again. Applying it would never end.
+// valueIfUnset hands out what an input that leaves the property out gets in its place: the default value of the
+// property and, in a struct-mapped object, the default values of the sub-object that the property holds. Without either,
+// the property stays unset.
+func (o *ObjectSchema) valueIfUnset(propertyID string, property *PropertySchema) (any, bool) {
+	filled := map[string]any{}
+	if defaultValue, hasDefault := o.GetDefaults()[propertyID]; hasDefault {
+		filled[propertyID] = defaultValue
+	}
+	if o.fieldCache != nil {
+		o.applySubObjectDefaultValues(propertyID, property, filled)
+	}
+	value, isFilled := filled[propertyID]
+	return value, isFilled
+}
+
+// defaultAppliesItself tells whether unserializing the value that stands in for the unset property comes to a place
+// where that same value applies: an object below it (a reference back to this object, say) that leaves the property
+// unset again. Applying it would never end.
 func (o *ObjectSchema) defaultAppliesItself(propertyID string, property *PropertySchema, defaultValue any) bool {
 	target := appliedDefault{o, propertyID}
 	return defaultApplies(property.Type(), defaultValue, target, []appliedDefault{target})
@@ -674,15 +694,24 @@ func defaultApplies(t Type, value any, target appliedDefault, path []appliedDefa
 	if ref, isRef := t.(Ref); isRef && !ref.ObjectReady() {
 		return false
 	}
-	object, isObject := ConvertToObjectSchema(t)
+	converted, isObject := ConvertToObjectSchema(t)
+	if !isObject {
+		return false
+	}
+	object, isObject := converted.(*ObjectSchema)
 	if !isObject {
 		return false
 	}
 	fields, isMap := value.(map[string]any)
 	if !isMap {
-		return false
+		if reflect.ValueOf(value).Kind() == reflect.Map || !object.takesShorthand() {
+			return false
+		}
+		// The value of the only property.
+		for _, property := range object.Properties() {
+			return defaultApplies(property.Type(), value, target, path)
+		}
 	}
-	defaults := object.GetDefaults()
 	for propertyID, property := range object.Properties() {
 		if field, isSet := fields[propertyID]; isSet {
 			if defaultApplies(property.Type(), field, target, path) {
@@ -690,8 +719,8 @@ func defaultApplies(t Type, value any, target appliedDefault, path []appliedDefa
 			}
 			continue
 		}
-		propertyDefault, hasDefault := defaults[propertyID]
-		if !hasDefault {
+		standIn, isFilled := object.valueIfUnset(propertyID, property)
+		if !isFilled {
 			continue
 		}
 		applied := appliedDefault{object, propertyID}
@@ -699,10 +728,10 @@ func defaultApplies(t Type, value any, target appliedDefault, path []appliedDefa
 			return true
 		}
 		if slices.Contains(path, applied) {
-			// Another default value that applies itself: it is reported where it applies first.
+			// Another value that applies itself: it is reported where it applies first.
 			continue
 		}
-		if defaultApplies(property.Type(), propertyDefault, target, append(path[:len(path):len(path)], applied)) {
+		if defaultApplies(property.Type(), standIn, target, append(path[:len(path):len(path)], applied)) {
 			return true
 		}
 	}
@@ -724,18 +753,15 @@ func (o *ObjectSchema) convertData(v reflect.Value) (map[string]any, error) {
 	for propertyID, property := range o.PropertiesValue {
 		_, isSet := rawData[propertyID]
 		if !isSet {
-			if defaultValue, ok := o.GetDefaults()[propertyID]; ok {
-				if o.defaultAppliesItself(propertyID, property, defaultValue) {
+			if standIn, isFilled := o.valueIfUnset(propertyID, property); isFilled {
+				if o.defaultAppliesItself(propertyID, property, standIn) {
 					return nil, &ConstraintError{
 						Message: "The default value of this property contains an object in which this default value " +
 							"applies again: the schema has no finite value here",
 						Path: []string{propertyID},
 					}
 				}
-				rawData[propertyID] = defaultValue
-			}
-			if o.fieldCache != nil {
-				o.applySubObjectDefaultValues(propertyID, property, rawData)
+				rawData[propertyID] = standIn
 			}
 		}
 	}
